@@ -8,11 +8,14 @@
    the reader (no cached hash; names and strings shorter than 2^31 bytes, the comparator truncates length differences
    to int) -- the comparator is proved to be a total preorder whose zero set is equality on these values, floats
    included (C08_sort_strategy); the insertion sort of the executable model meets the assumption (C08_sort_strategy_model).
-   PARTIAL: that caching a hash does not change an equality answer (needed to compare the hash strategy's verdict with
-   the uncached pairwise one) is C07's history independence, proved on the sequence fragment only. *)
+   Together with C07's history independence: on the sequence fragment (scalars, big numbers, strings, names, lists,
+   vectors, tagged values below the depth cap, coherent hash caches) the verdict of the reader's duplicate check is the
+   pairwise verdict of the elements at EVERY size (C08_verdict_is_pairwise_partial).
+   PARTIAL: elements that are sets, maps or external values (history independence is proved on the sequence fragment
+   only) and qsort itself (assumed to return a comparator-ordered permutation). *)
 From Coq Require Import ZArith NArith List Bool Permutation Sorted.
 From Coq.Strings Require Import Byte.
-From Verif Require Import Lanes Common Values Equality EqBasics Configs FlagProofs HashDup SortDup.
+From Verif Require Import Lanes Common Values Equality EqBasics EqEquiv Configs FlagProofs HashDup SortDup History.
 Import ListNotations.
 
 Section C08.
@@ -55,6 +58,14 @@ Theorem C08_comparator_zero_is_equality : forall (c : cfg) xe a b, In c all_cfgs
   (equal c xe a b = true <-> compare_nodes c a b = 0%Z).
 Proof. intros c xe a b Hc. apply cmp_eq_model. now apply tags_inj_all. Qed.
 
+(* every size: the verdict of edn_has_duplicates (model) is the pairwise verdict of the elements *)
+Theorem C08_verdict_is_pairwise_partial : forall (c : cfg) xe xh (sort : list node -> list node) l, In c all_cfgs ->
+  Forall (simple c) l -> Forall (coherent c xh) l -> (Z.of_nat (List.length l) < 2 ^ 64)%Z ->
+  (forallb sort_comparable l = true -> Forall sdom l /\ Permutation (sort l) l /\
+                                       StronglySorted (fun a b => (compare_nodes c a b <= 0)%Z) (sort l)) ->
+  fst (has_duplicates c xe xh sort l) = dup_linear c xe l.
+Proof. intros c xe xh sort l Hc. apply has_duplicates_pairwise. now apply tags_inj_all. Qed.
+
 (* non-vacuity: a list the theorem applies to, with a duplicate the strategy must find: (2.5 "b" :k 7 -0.0 "b") *)
 Example C08_sort_example :
   let l := [mk (VFloat (SpecFloat.S754_finite false 5 (-1))) 0 1; mk (VString ["b"%byte] false None) 2 3;
@@ -63,6 +74,7 @@ Example C08_sort_example :
   forallb sort_comparable l = true /\ dup_sorted cfg00 (fun _ => None) (isort cfg00) l = true.
 Proof. vm_compute. split; reflexivity. Qed.
 
+Print Assumptions C08_verdict_is_pairwise_partial.
 Print Assumptions C08_sort_strategy.
 Print Assumptions C08_sort_strategy_model.
 Print Assumptions C08_hash_strategy.
